@@ -352,3 +352,41 @@ Proof.
   cbn [h_step]. rewrite E1, E2. destruct (h_lookup_in _ _ Hin) as [d Hd]. rewrite Hd.
   split; [reflexivity|]. split; [reflexivity|]. exists d. reflexivity.
 Qed.
+
+(** * 3. clean-up paths *)
+Lemma cleanup_targets_confined root ds p :
+  In p (cleanup_targets root ds) ->
+  p = path_append (fp_clean root) [s_blobs] \/
+  exists file, safe_comp file /\ p = path_append (fp_clean root) [s_blobs; file].
+Proof.
+  unfold cleanup_targets. intro H. apply in_flat_map in H as (d & _ & Hp).
+  destruct (get_blobs_path_cases root d) as [[E _]|[[_ E]|(hexs & Hs & E)]]; rewrite E in Hp.
+  - destruct Hp.
+  - destruct Hp as [<-|[]]. left. reflexivity.
+  - destruct Hp as [<-|[]]. right. eexists. split; [|reflexivity].
+    destruct Hs as (_ & _ & _ & _ & Hh). apply blob_file_safe. exact Hh.
+Qed.
+
+Lemma cleanup_targets_incl root a b : incl a b -> incl (cleanup_targets root a) (cleanup_targets root b).
+Proof.
+  intros Hi p Hp. unfold cleanup_targets in *. apply in_flat_map in Hp as (d & Hd & Hp). apply in_flat_map. exists d. split; [apply Hi; exact Hd|exact Hp].
+Qed.
+
+Lemma layer_remove_confined root refs d p :
+  In p (layer_remove_targets root refs d) ->
+  p = path_append (fp_clean root) [s_blobs] \/ exists file, safe_comp file /\ p = path_append (fp_clean root) [s_blobs; file].
+Proof.
+  unfold layer_remove_targets. destruct (nonempty d && negb (referenced refs d)); [apply cleanup_targets_confined|intros []].
+Qed.
+
+Lemma delete_unused_confined root refs dm p :
+  In p (delete_unused_targets root refs dm) ->
+  p = path_append (fp_clean root) [s_blobs] \/ exists file, safe_comp file /\ p = path_append (fp_clean root) [s_blobs; file].
+Proof. apply cleanup_targets_confined. Qed.
+
+(** a string outside the digest grammar (and not empty) names no file at all *)
+Lemma cleanup_rejects root d : d <> [] -> digest_re_match d = false -> cleanup_targets root [d] = [].
+Proof.
+  intros Hne Hm. unfold cleanup_targets. cbn [flat_map]. unfold get_blobs_path.
+  destruct d; [congruence|]. cbn [nonempty andb]. rewrite Hm. reflexivity.
+Qed.
